@@ -17,7 +17,8 @@ EXPLANATION = (
     "of solve_for_vector is evaluated abstractly for every length N = 1..4 of the linear combination and every position of the "
     "unknown, with generic vectors and generic scalar coefficients, and the returned equation satisfies lhs - rhs = expr / scale "
     "(factor reduction on) and lhs - rhs = -expr (off) exactly - so the returned equation is equivalent to the original for all "
-    "coefficients; Q4 solve_for_scalar pairs each solved symbol with its own solution. Not decided: SymPy's solver, "
+    "coefficients; Q4 solve_for_scalar pairs each solved symbol with its own solution and never switches off "
+    "SymPy's verification of candidate solutions; Q5 is_vector_expr refuses a product of two or more vectors (no early `return True` inside the loop over the factors). Not decided: SymPy's solver, "
     "vector_equals (runs simplify), and the term splitting helpers.")
 ASSUMPTIONS = ["into_terms / split_factor return the (vector, coefficient) decomposition of the expression (C14's undecided part)",
                "vector symbols are treated as commuting indeterminates of a free module (all operations used are linear)"]
